@@ -74,6 +74,20 @@ var _ = kessoku.Inject[*Second]("second",
 	kessoku.Provide(NewSecond),
 )
 ''',
+ "app/third.go": '''package app
+
+import "github.com/mazrean/kessoku"
+
+type Wrapper struct{ s *Second }
+
+func NewWrapper(s *Second) *Wrapper { return &Wrapper{s} }
+
+// an injector composed from an injector that is generated for another file of the same invocation
+var _ = kessoku.Inject[*Wrapper]("InitWrapper",
+	kessoku.Provide(second),
+	kessoku.Provide(NewWrapper),
+)
+''',
 }
 
 def sha(path):
@@ -111,7 +125,7 @@ def check_c11(tier, seed):
         for f in files:
             s = open(f).read().replace('"e2e/rt"', '"demo/rt"')
             open(f, "w").write(s)
-        targets = [["app/kessoku.go", "app/second.go"], ["app/second.go", "app/kessoku.go"]] + [[os.path.relpath(f, M.root)] for f in files[:3]] + [[os.path.relpath(f, M.root) for f in files[:8]]]      # (one invocation loads the package once per file)
+        targets = [["app/kessoku.go", "app/second.go", "app/third.go"], ["app/second.go", "app/kessoku.go"]] + [[os.path.relpath(f, M.root)] for f in files[:3]] + [[os.path.relpath(f, M.root) for f in files[:8]]]      # (one invocation loads the package once per file)
         env = M.env()
         def gen(tg, extra=None):
             nonlocal runs
@@ -132,6 +146,12 @@ def check_c11(tier, seed):
             rc, out = gen(tg)
             if rc != 0:
                 R.violation("generator fails on the determinism probe %s: %s" % (tg, out[-300:]), {"kind": "input", "failing_input": tg, "output": out[-1500:]})
+                continue
+            missing = [o for o in outs(tg) if not os.path.exists(o)]
+            if missing:
+                R.violation("the generator exits 0 but writes no output for %s (invocation: %s)" % ([os.path.relpath(o, M.root) for o in missing], tg),
+                            {"kind": "input", "failing_input": {"files": tg, "sources": PROBE_FILES if tg[0].startswith("app/") else "seeded package"}, "output": out[-1500:],
+                             "reproduce": "run `kessoku %s` in a clean copy of the sources" % " ".join(tg)})
                 continue
             ref = [open(o, "rb").read() for o in outs(tg)]
             distinct.update(hashlib.sha256(b).hexdigest() for b in ref)
